@@ -29,7 +29,7 @@ ASSUMPTIONS = [
 ALPHABET = "device x type x casing x name; graph; registry; hardware list"
 BOUND = {"quick": "VMX singles, pairs, triples (thin), OVF <= 2/2/3, VBox <= 3 disks, PVS <= 5 devices",
          "thorough": "adds all VMX triples over a 6-position grid and OVF with 3 files"}
-EXPECT_OUTCOMES = ["vmx", "vmx-dict", "ovf", "vbox", "pvs", "vmx-encrypted", "ovf-interleaved", "xml-decl", "ovf-ids", "handle-lifecycle"]
+EXPECT_OUTCOMES = ["vmx", "vmx-dict", "ovf", "vbox", "pvs", "vmx-encrypted", "ovf-interleaved", "xml-decl", "ovf-ids", "handle-lifecycle", "pvs-large", "ovf-foreign-attrs"]
 
 BUSES = ["scsi", "sata", "ide", "nvme"]
 TYPES = [None, "scsi-hardDisk", "ata-hardDisk", "disk", "rawDisk", "cdrom-image", "cdrom-raw", "atapi-cdrom"]
@@ -41,7 +41,7 @@ SPECIAL_CHARS = ["\x0b", "\x0c", "\x1c", "\x1d", "\x1e", "\x85", "\u2028", "\u20
 
 
 def shards(tier):
-    out = [{"kind": "vmx1"}, {"kind": "vmx-chars"}, {"kind": "xml-decl"}, {"kind": "ovf-ids"}, {"kind": "handle-lifecycle"}, {"kind": "vmx-dict"}, {"kind": "vbox"}, {"kind": "pvs"}, {"kind": "vmx-encrypted"},
+    out = [{"kind": "pvs-large"}, {"kind": "ovf-foreign-attrs"}, {"kind": "vmx1"}, {"kind": "vmx-chars"}, {"kind": "xml-decl"}, {"kind": "ovf-ids"}, {"kind": "handle-lifecycle"}, {"kind": "vmx-dict"}, {"kind": "vbox"}, {"kind": "pvs"}, {"kind": "vmx-encrypted"},
            {"kind": "ovf-interleaved"}]
     out += [{"kind": "vmx2", "slice": [i, 8]} for i in range(8)]
     out += [{"kind": "vmx3", "slice": [i, 4], "full": tier != "quick"} for i in range(4)]
@@ -100,6 +100,17 @@ def run_shard(shard, ctx):
                     "twice": "a" + ch + "b" + ch + "scsi0:1.fileName = \"x.vmdk"}[where]
             run_case({"kind": "vmx", "devs": [[bus, 0, 0, typ, name], ["sata", 1, 1, None, "plain.vmdk"]], "casing": "camel",
                       "extras": 2}, ctx)
+    elif kind == "pvs-large":
+        # documents of 16 KiB .. 130 KiB in which a disk entry lies across every multiple of 16384 / 65536 characters (the
+        # sizes in which file objects are fed to incremental parsers), as text and as bytes
+        for boundary in (16384, 32768, 65536, 131072):
+            for delta in range(-150, 30, 9):
+                for handle in ("text", "bytes"):
+                    run_case({"kind": "pvs-large", "boundary": boundary, "delta": delta, "handle": handle}, ctx)
+    elif kind == "ovf-foreign-attrs":
+        # vendor attributes from other namespaces whose local names equal the OVF ones, before and after them
+        for where, swap, tgt in itertools.product(("after", "before", "both"), (False, True), ("file", "disk", "all")):
+            run_case({"kind": "ovf-foreign-attrs", "where": where, "swap": swap, "target": tgt}, ctx)
     elif kind == "ovf-ids":
         # disk and file ids with characters that are special to URL / path splitting, in both HostResource spellings and both
         # id spaces; a second disk whose id is the part in front of the special character
@@ -206,6 +217,48 @@ def _do_vmx(case):
 
 
 OVF_ID_CHARS = ["#", "?", ";", "&amp;", "%20", "%", "+", "@", "!", "..", ":", "=", ","]  # no "/": the HostResource path is split at slashes
+
+
+def _do_pvs_large(case):
+    from dissect.hypervisor.descriptor.pvs import PVS
+
+    b, dl = case["boundary"], case["delta"]
+    head = '<?xml version="1.0" encoding="UTF-8"?><ParallelsVirtualMachine schemaVersion="1.0"><Hardware>'
+    first = '<Hdd id="0"><Index>0</Index><SystemName>first-0.hdd</SystemName></Hdd>'
+    entry = '<Hdd dyn_lists="Partition 0" id="1"><Index>1</Index><Enabled>1</Enabled><SystemName>straddling disk-ü.hdd</SystemName></Hdd>'
+    tail = '<Hdd id="2"><Index>2</Index><SystemName>last-2.hdd</SystemName></Hdd></Hardware></ParallelsVirtualMachine>'
+    # the entry starts `delta` characters relative to the boundary
+    pad = b + dl - len(head) - len(first) - 9
+    doc = head + first + "<!--" + "p" * (pad - 2) + "-->  " + entry + tail
+    fh = io.StringIO(doc) if case["handle"] == "text" else io.BytesIO(doc.encode())
+    got = _twice(PVS(fh).disks)
+    return got, ["first-0.hdd", "straddling disk-ü.hdd", "last-2.hdd"], True
+
+
+def _do_ovf_foreign_attrs(case):
+    from dissect.hypervisor.descriptor.ovf import OVF
+
+    where, swap, tgt = case["where"], case["swap"], case["target"]
+    ns = f'xmlns="{NS_OVF}" xmlns:ovf="{NS_OVF}" xmlns:rasd="{NS_RASD}" xmlns:cat="urn:vendor:catalog" xmlns:x="urn:x"'
+
+    def attrs(own, foreign, on):
+        if not on:
+            return own
+        return {"after": own + " " + foreign, "before": foreign + " " + own, "both": foreign + " " + own + " " + foreign.replace("cat:", "x:")}[where]
+
+    f_on, d_on = tgt in ("file", "all"), tgt in ("disk", "all")
+    ids = ("file2", "file1") if swap else ("zz1", "zz2")
+    f1 = attrs('ovf:id="file1" ovf:href="one.vmdk"', f'cat:id="{ids[0]}" cat:href="https://mirror/one"', f_on)
+    f2 = attrs('ovf:id="file2" ovf:href="two.vmdk"', f'cat:id="{ids[1]}" cat:href="https://mirror/two"', f_on)
+    d1 = attrs('ovf:diskId="vmdisk1" ovf:fileRef="file1"', 'cat:diskId="vmdisk2" cat:fileRef="file2"', d_on)
+    d2 = attrs('ovf:diskId="vmdisk2" ovf:fileRef="file2"', 'cat:diskId="vmdisk1" cat:fileRef="file1"', d_on)
+    text = (f'<?xml version="1.0"?><Envelope {ns}><References><File {f1}/><File {f2}/></References><DiskSection><Info>i</Info>'
+            f'<Disk {d1}/><Disk {d2}/></DiskSection><VirtualSystem ovf:id="vm"><VirtualHardwareSection>'
+            f'<Item><rasd:HostResource>ovf:/disk/vmdisk1</rasd:HostResource><rasd:ResourceType>17</rasd:ResourceType></Item>'
+            f'<Item><rasd:HostResource>ovf:/file/file2</rasd:HostResource><rasd:ResourceType>17</rasd:ResourceType></Item>'
+            f'</VirtualHardwareSection></VirtualSystem></Envelope>')
+    got = _twice(OVF(io.StringIO(text)).disks)
+    return got, ["one.vmdk", "two.vmdk"], True
 
 
 def _do_ovf_ids(case):
